@@ -86,57 +86,82 @@ Proof.
   intros Hhs. unfold fast_rtp_unmarshal. destruct pad.
   - destruct (Z.leb_spec (Z.of_N (nlen payload)) hs) as [|Hlt]; [exact I|].
     destruct (znth_in payload (Z.of_N (nlen payload) - 1)) as [ps ->]; [lia|lia|].
+    destruct (ps =? 0); [exact I|].
     destruct (Z.ltb_spec (Z.of_N (nlen payload) - Z.of_N ps) hs) as [|Hge]; [exact I|].
     rewrite zsub_in by lia. exact I.
   - destruct (Z.ltb_spec (Z.of_N (nlen payload)) hs) as [|Hge]; [exact I|].
     rewrite zsub_in by lia. exact I.
 Qed.
 
-(* exactly which combinations are refused, for a non-negative header size *)
+Lemma znth_last (payload : list N) ps : (0 < Z.of_N (nlen payload))%Z ->
+  znth payload (Z.of_N (nlen payload) - 1) = Some ps -> nnth (nlen payload - 1) payload = Some ps.
+Proof.
+  intros Hp Hps. unfold znth in Hps. destruct (Z.ltb_spec (Z.of_N (nlen payload) - 1) 0); [lia|].
+  replace (nlen payload - 1) with (Z.to_N (Z.of_N (nlen payload) - 1)) by lia. exact Hps.
+Qed.
+
+(* exactly which combinations are refused, for a non-negative header size: three error classes *)
 Lemma fast_errors payload pad hs : (0 <= hs)%Z ->
   (fast_rtp_unmarshal payload pad hs = Err e_fast_pad_no_room <->
      pad = true /\ (Z.of_N (nlen payload) <= hs)%Z) /\
+  (fast_rtp_unmarshal payload pad hs = Err e_fast_zero_padding <->
+     pad = true /\ (hs < Z.of_N (nlen payload))%Z /\ nnth (nlen payload - 1) payload = Some 0) /\
   (fast_rtp_unmarshal payload pad hs = Err e_fast_end_before <->
      (pad = false /\ (Z.of_N (nlen payload) < hs)%Z) \/
      (pad = true /\ (hs < Z.of_N (nlen payload))%Z /\
-        exists ps, nnth (nlen payload - 1) payload = Some ps /\ (Z.of_N (nlen payload) - Z.of_N ps < hs)%Z)) /\
-  (forall e, fast_rtp_unmarshal payload pad hs = Err e -> e = e_fast_pad_no_room \/ e = e_fast_end_before).
+        exists ps, nnth (nlen payload - 1) payload = Some ps /\ ps <> 0 /\
+                   (Z.of_N (nlen payload) - Z.of_N ps < hs)%Z)) /\
+  (forall e, fast_rtp_unmarshal payload pad hs = Err e ->
+     e = e_fast_pad_no_room \/ e = e_fast_zero_padding \/ e = e_fast_end_before).
 Proof.
-  intros Hhs. unfold fast_rtp_unmarshal, e_fast_pad_no_room, e_fast_end_before. destruct pad.
+  intros Hhs. unfold fast_rtp_unmarshal, e_fast_pad_no_room, e_fast_end_before, e_fast_zero_padding. destruct pad.
   - destruct (Z.leb_spec (Z.of_N (nlen payload)) hs) as [Hle|Hlt].
-    + split; [|split].
+    + split; [|split; [|split]].
       * split; [intros _; split; [reflexivity|lia] | reflexivity].
-      * split; [discriminate|]. intros [[H _]|(_ & H & _)]; [discriminate|lia].
-      * intros e H; inversion H; auto.
+      * split; [discriminate|]. intros (_ & Hc & _); lia.
+      * split; [discriminate|]. intros [[Hc _]|(_ & Hc & _)]; [discriminate|lia].
+      * intros e He; inversion He; auto.
     + destruct (znth_in payload (Z.of_N (nlen payload) - 1)) as [ps Hps]; [lia|lia|]. rewrite Hps.
-      assert (Hn : nnth (nlen payload - 1) payload = Some ps).
-      { unfold znth in Hps. destruct (Z.ltb_spec (Z.of_N (nlen payload) - 1) 0); [lia|].
-        replace (nlen payload - 1) with (Z.to_N (Z.of_N (nlen payload) - 1)) by lia. exact Hps. }
+      pose proof (znth_last payload ps ltac:(lia) Hps) as Hn.
+      destruct (N.eqb_spec ps 0) as [Hz|Hnz].
+      { subst ps. split; [|split; [|split]].
+        - split; [discriminate|]. intros [_ Hc]; lia.
+        - split; [|reflexivity]. intros _. split; [reflexivity|]. split; [lia|exact Hn].
+        - split; [discriminate|]. intros [[Hc _]|(_ & _ & ps' & Hps' & Hnz' & _)]; [discriminate|].
+          rewrite Hn in Hps'. congruence.
+        - intros e He; inversion He; auto. }
       destruct (Z.ltb_spec (Z.of_N (nlen payload) - Z.of_N ps) hs) as [Hb|Hge].
-      * split; [|split].
-        -- split; [discriminate|]. intros [_ H]; lia.
-        -- split; [|reflexivity]. intros _. right. split; [reflexivity|]. split; [lia|]. exists ps. split; [exact Hn|lia].
-        -- intros e H; inversion H; auto.
-      * rewrite zsub_in by lia. split; [|split].
-        -- split; [discriminate|]. intros [_ H]; lia.
-        -- split; [discriminate|]. intros [[H _]|(_ & _ & ps' & Hps' & Hlt')]; [discriminate|].
-           rewrite Hn in Hps'. inversion Hps'; subst. lia.
-        -- intros e H; discriminate.
+      * split; [|split; [|split]].
+        -- split; [discriminate|]. intros [_ Hc]; lia.
+        -- split; [discriminate|]. intros (_ & _ & Hc). rewrite Hn in Hc. congruence.
+        -- split; [|reflexivity]. intros _. right. split; [reflexivity|]. split; [lia|].
+           exists ps. split; [exact Hn|]. split; [exact Hnz|lia].
+        -- intros e He; inversion He; auto.
+      * rewrite zsub_in by lia. split; [|split; [|split]].
+        -- split; [discriminate|]. intros [_ Hc]; lia.
+        -- split; [discriminate|]. intros (_ & _ & Hc). rewrite Hn in Hc. congruence.
+        -- split; [discriminate|]. intros [[Hc _]|(_ & _ & ps' & Hps' & _ & Hlt')]; [discriminate|].
+           rewrite Hn in Hps'. assert (ps' = ps) by congruence. subst ps'. lia.
+        -- intros e He; discriminate.
   - destruct (Z.ltb_spec (Z.of_N (nlen payload)) hs) as [Hb|Hge].
-    + split; [|split].
-      * split; [discriminate|]. intros [H _]; discriminate.
+    + split; [|split; [|split]].
+      * split; [discriminate|]. intros [Hc _]; discriminate.
+      * split; [discriminate|]. intros [Hc _]; discriminate.
       * split; [|reflexivity]. intros _. left. split; [reflexivity|lia].
-      * intros e H; inversion H; auto.
-    + rewrite zsub_in by lia. split; [|split].
-      * split; [discriminate|]. intros [H _]; discriminate.
-      * split; [discriminate|]. intros [[_ H]|(H & _)]; [lia|discriminate].
-      * intros e H; discriminate.
+      * intros e He; inversion He; auto.
+    + rewrite zsub_in by lia. split; [|split; [|split]].
+      * split; [discriminate|]. intros [Hc _]; discriminate.
+      * split; [discriminate|]. intros [Hc _]; discriminate.
+      * split; [discriminate|]. intros [[_ Hc]|(Hc & _)]; [lia|discriminate].
+      * intros e He; discriminate.
 Qed.
 
-(* when it succeeds, the datagram is  header (hs bytes) ++ payload ++ padding (PaddingSize bytes) *)
+(* when it succeeds, the datagram is  header (hs bytes) ++ payload ++ padding (PaddingSize bytes);
+   with the Padding flag the padding size is at least 1 (it counts itself) *)
 Lemma fast_payload payload pad hs f : (0 <= hs)%Z ->
   fast_rtp_unmarshal payload pad hs = Ok f ->
   pad_size payload pad = Some (fo_padsize f) /\
+  (pad = true -> 1 <= fo_padsize f) /\
   exists pre suf, payload = pre ++ fo_payload f ++ suf /\
                   Z.of_N (nlen pre) = hs /\ nlen suf = fo_padsize f /\
                   fo_payload f = ntake (nlen payload - fo_padsize f - Z.to_N hs) (ndrop (Z.to_N hs) payload).
@@ -144,22 +169,21 @@ Proof.
   intros Hhs. unfold fast_rtp_unmarshal, pad_size. destruct pad.
   - destruct (Z.leb_spec (Z.of_N (nlen payload)) hs) as [|Hlt]; [discriminate|].
     destruct (znth payload (Z.of_N (nlen payload) - 1)) as [ps|] eqn:Hps; [|discriminate].
+    destruct (N.eqb_spec ps 0) as [|Hnz]; [discriminate|].
     destruct (Z.ltb_spec (Z.of_N (nlen payload) - Z.of_N ps) hs) as [|Hge]; [discriminate|].
     destruct (zsub payload hs (Z.of_N (nlen payload) - Z.of_N ps)) as [p|] eqn:Hs; [|discriminate].
-    intros H; inversion H; subst f; clear H. cbn [fo_padsize fo_payload].
+    intros Hf; assert (Ef : f = mkFast ps p) by congruence; subst f; clear Hf. cbn [fo_padsize fo_payload].
     apply zsub_inv in Hs. destruct Hs as (H0 & H1 & H2 & ->).
-    split.
-    + destruct (N.eqb_spec (nlen payload) 0); [lia|].
-      unfold znth in Hps. destruct (Z.ltb_spec (Z.of_N (nlen payload) - 1) 0); [lia|].
-      replace (nlen payload - 1) with (Z.to_N (Z.of_N (nlen payload) - 1)) by lia. exact Hps.
+    split; [|split; [intros _; lia|]].
+    + destruct (N.eqb_spec (nlen payload) 0); [lia|]. apply znth_last; [lia|exact Hps].
     + destruct (slice_split payload (Z.to_N hs) (Z.to_N (Z.of_N (nlen payload) - Z.of_N ps - hs))) as (E & L1 & L2 & L3); [lia|].
       exists (ntake (Z.to_N hs) payload), (ndrop (Z.to_N (Z.of_N (nlen payload) - Z.of_N ps - hs)) (ndrop (Z.to_N hs) payload)).
       split; [exact E|]. split; [lia|]. split; [lia|]. f_equal. lia.
   - destruct (Z.ltb_spec (Z.of_N (nlen payload)) hs) as [|Hge]; [discriminate|].
     destruct (zsub payload hs (Z.of_N (nlen payload))) as [p|] eqn:Hs; [|discriminate].
-    intros H; inversion H; subst f; clear H. cbn [fo_padsize fo_payload].
+    intros Hf; assert (Ef : f = mkFast 0 p) by congruence; subst f; clear Hf. cbn [fo_padsize fo_payload].
     apply zsub_inv in Hs. destruct Hs as (H0 & H1 & H2 & ->).
-    split; [reflexivity|].
+    split; [reflexivity|]. split; [discriminate|].
     destruct (slice_split payload (Z.to_N hs) (Z.to_N (Z.of_N (nlen payload) - hs))) as (E & L1 & L2 & L3); [lia|].
     exists (ntake (Z.to_N hs) payload), (ndrop (Z.to_N (Z.of_N (nlen payload) - hs)) (ndrop (Z.to_N hs) payload)).
     split; [exact E|]. split; [lia|]. split; [lia|]. f_equal. lia.
@@ -286,35 +310,50 @@ Lemma rtp_read_path_any_payload_total buf h n payload :
   rtp_header_unmarshal buf = Ok (h, n) -> safe (fast_rtp_unmarshal payload (h_padding h) (Z.of_N n)).
 Proof. intros _. apply fast_total. lia. Qed.
 
-(* ----- relation with pion's Packet.Unmarshal on the same bytes ----- *)
-Lemma fast_vs_pion buf h n : rtp_header_unmarshal buf = Ok (h, n) ->
-  match pion_packet_unmarshal buf with
-  | Ok (h', f) => h' = h /\ fast_rtp_unmarshal buf (h_padding h) (Z.of_N n) = Ok f /\ (h_padding h = true -> fo_padsize f <> 0)
-  | Err e =>
-      (e = e_rtp_too_small /\ exists e', fast_rtp_unmarshal buf (h_padding h) (Z.of_N n) = Err e') \/
-      (e = e_rtp_bad_padding /\ h_padding h = true /\ nnth (nlen buf - 1) buf = Some 0 /\
-       fast_rtp_unmarshal buf true (Z.of_N n) =
-         Ok (mkFast 0 (ntake (nlen buf - n) (ndrop n buf))))
-  | Panic | Diverge => False
+(* ----- identical to pion's Packet.Unmarshal on the same bytes ----- *)
+(* same verdict; on success the same header, payload and padding size; on failure the same kind of
+   error ("buffer too small" <-> errTooSmall, "invalid RTP padding" <-> errInvalidRTPPadding) *)
+Definition same_as_pion (p : res (rtp_header * fast_ok)) (h : rtp_header) (r : res fast_ok) : Prop :=
+  match p, r with
+  | Ok (h', f'), Ok f => h' = h /\ f' = f
+  | Err e, Err e' =>
+      (e = e_rtp_too_small /\ (e' = e_fast_pad_no_room \/ e' = e_fast_end_before)) \/
+      (e = e_rtp_bad_padding /\ e' = e_fast_zero_padding)
+  | _, _ => False
   end.
+
+Lemma fast_agrees_with_pion buf h n : rtp_header_unmarshal buf = Ok (h, n) ->
+  same_as_pion (pion_packet_unmarshal buf) h (fast_rtp_unmarshal buf (h_padding h) (Z.of_N n)).
 Proof.
   intros E. pose proof (rtp_header_size_in_range buf h n E) as Hn.
-  unfold pion_packet_unmarshal, fast_rtp_unmarshal. rewrite E.
+  unfold same_as_pion, pion_packet_unmarshal, fast_rtp_unmarshal. rewrite E.
   destruct (h_padding h).
-  - destruct (Z.leb_spec (Z.of_N (nlen buf)) (Z.of_N n)) as [|Hlt]; [left; split; [reflexivity|eauto]|].
-    destruct (znth_in buf (Z.of_N (nlen buf) - 1)) as [ps Hps]; [lia|lia|]. rewrite Hps.
-    destruct (N.eqb_spec ps 0) as [->|Hnz].
-    + right. split; [reflexivity|]. split; [reflexivity|]. split.
-      * unfold znth in Hps. destruct (Z.ltb_spec (Z.of_N (nlen buf) - 1) 0); [lia|].
-        replace (nlen buf - 1) with (Z.to_N (Z.of_N (nlen buf) - 1)) by lia. exact Hps.
-      * destruct (Z.ltb_spec (Z.of_N (nlen buf) - Z.of_N 0) (Z.of_N n)); [lia|].
-        rewrite zsub_in by lia.
-        replace (Z.to_N (Z.of_N (nlen buf) - Z.of_N 0 - Z.of_N n)) with (nlen buf - n) by lia.
-        replace (Z.to_N (Z.of_N n)) with n by lia. reflexivity.
-    + destruct (Z.ltb_spec (Z.of_N (nlen buf) - Z.of_N ps) (Z.of_N n)) as [|Hge]; [left; split; [reflexivity|eauto]|].
-      rewrite zsub_in by lia. split; [reflexivity|]. split; [reflexivity|]. intros _. exact Hnz.
-  - destruct (Z.ltb_spec (Z.of_N (nlen buf)) (Z.of_N n)) as [|Hge]; [left; split; [reflexivity|eauto]|].
-    rewrite zsub_in by lia. split; [reflexivity|]. split; [reflexivity|]. discriminate.
+  - destruct (Z.leb_spec (Z.of_N (nlen buf)) (Z.of_N n)) as [|Hlt]; [left; auto|].
+    destruct (znth_in buf (Z.of_N (nlen buf) - 1)) as [ps ->]; [lia|lia|].
+    destruct (ps =? 0); [right; auto|].
+    destruct (Z.ltb_spec (Z.of_N (nlen buf) - Z.of_N ps) (Z.of_N n)) as [|Hge]; [left; auto|].
+    rewrite zsub_in by lia. split; reflexivity.
+  - destruct (Z.ltb_spec (Z.of_N (nlen buf)) (Z.of_N n)) as [|Hge]; [left; auto|].
+    rewrite zsub_in by lia. split; reflexivity.
+Qed.
+
+(* on EVERY datagram (header errors included) the read path header.Unmarshal ; fastRTPUnmarshal and
+   pion's Packet.Unmarshal give the same verdict and, on success, the same packet *)
+Lemma read_path_agrees_with_pion buf :
+  match rtp_read_path buf, pion_packet_unmarshal buf with
+  | Ok (h, f), Ok (h', f') => h = h' /\ f = f'
+  | Err _, Err _ => True
+  | _, _ => False
+  end.
+Proof.
+  unfold rtp_read_path.
+  pose proof (rtp_header_unmarshal_total buf) as Ht.
+  destruct (rtp_header_unmarshal buf) as [[h n]|e| |] eqn:E; cbn [safe] in Ht; try contradiction.
+  - pose proof (fast_agrees_with_pion buf h n E) as Ha. unfold same_as_pion in Ha.
+    destruct (pion_packet_unmarshal buf) as [[h' f']| | |];
+      destruct (fast_rtp_unmarshal buf (h_padding h) (Z.of_N n)); try contradiction; auto.
+    destruct Ha; subst; auto.
+  - unfold pion_packet_unmarshal. rewrite E. exact I.
 Qed.
 
 (* ================= RTCP ================= *)
@@ -597,15 +636,11 @@ Proof.
   intros h n payload E. apply safe_spec. eapply rtp_read_path_any_payload_total; eauto.
 Qed.
 
-Lemma fast_vs_pion_refuted : exists buf h n f,
-  rtp_header_unmarshal buf = Ok (h, n) /\
-  fast_rtp_unmarshal buf (h_padding h) (Z.of_N n) = Ok f /\
-  fo_padsize f = 0 /\ h_padding h = true /\
-  pion_packet_unmarshal buf = Err e_rtp_bad_padding.
-Proof.
-  exists [160; 96; 0; 1; 0; 0; 0; 2; 0; 0; 0; 3; 170; 187; 0].
-  eexists. eexists. eexists. vm_compute. repeat split; reflexivity.
-Qed.
+(* regression: the minimal input of the former finding fast-rtp-accepts-zero-padding-size is refused *)
+Lemma fast_zero_padding_refused :
+  rtp_read_path [160; 96; 0; 1; 0; 0; 0; 2; 0; 0; 0; 3; 170; 187; 0] = Err (10 + e_fast_zero_padding) /\
+  pion_packet_unmarshal [160; 96; 0; 1; 0; 0; 0; 2; 0; 0; 0; 3; 170; 187; 0] = Err e_rtp_bad_padding.
+Proof. vm_compute. split; reflexivity. Qed.
 
 Lemma sdes_tolerant_total raw h : sdes_tolerant raw h <> Panic /\ sdes_tolerant raw h <> Diverge.
 Proof. apply safe_spec, sdes_tolerant_safe. Qed.
